@@ -15,7 +15,7 @@ import vf
 LEVEL = "model_checking"
 
 TIERS = {
-    "quick": dict(mc_cfg="Energy_mc_quick.cfg", mc_timeout=600, situ=60, situ_san=6, npk=24, plan=700, rand=500, chunks=12, tlc_timeout=900),
+    "quick": dict(mc_cfg="Energy_mc_quick.cfg", mc_timeout=600, situ=40, situ_san=4, npk=20, plan=400, rand=300, chunks=14, tlc_timeout=900),
     "thorough": dict(mc_cfg="Energy_mc_thorough.cfg", mc_timeout=2400, situ=600, situ_san=40, npk=30, plan=6000, rand=5000, chunks=16, tlc_timeout=2400),
 }
 Q = 1 << 24
@@ -123,7 +123,7 @@ def random_cases(rng, n):
                 elif shape == "rand": v = rng.uniform(-20, 20)
                 elif shape == "fall": v = base - 1.3 * (i - start) + rng.uniform(-1, 1)
                 elif shape == "low": v = rng.uniform(-28, -12)
-                else: v = rng.uniform(14, 31)
+                else: v = rng.uniform(10, 24)
                 eb[i + 21 * c] = int(max(-31.9, min(31.9, v)) * Q)
                 o = rng.choice([v + rng.uniform(-2, 2), rng.uniform(-28.7, 28.7), -28.0, 0.0])
                 old[i + 21 * c] = int(max(-28.7, min(28.7, o)) * Q)
